@@ -54,6 +54,8 @@ func main() {
 		runConcUni(*tier, *seed)
 	case "batch":
 		runBatch(*tier, *seed)
+	case "concheck":
+		runConCheck(*tier, *seed)
 	case "conc":
 		runConcFile(*arg, *seed)
 	case "prog":
